@@ -14,7 +14,15 @@ from translate import c06gen  # noqa: E402
 CLIFF1 = ["X", "Y", "Z", "H", "S", "Sdag", "SqrtX", "SqrtXdag", "SqrtY", "SqrtYdag", "Identity"]
 CLIFF2 = ["CNOT", "CZ", "SWAP"]
 OTHER = ["T", "Tdag", "RX", "U3", "TOFFOLI", "Pauli", "PauliRotation"]
+# every other gate the library can build that must be rejected (not in CLIFFORD_GATE_NAMES, or the multi-qubit Pauli gate)
+OTHER2 = ["RY", "RZ", "U1", "U2", "UnitaryMatrix", "SingleQubitUnitaryMatrix", "TwoQubitUnitaryMatrix", "Pauli1",
+          "ParametricRX", "ParametricRY", "ParametricRZ", "ParametricPauliRotation", "Measurement", "Bogus"]
 PH = {1: 0, 1j: 1, -1: 2, -1j: 3}
+GATE_FORMS = ["factory", "kwargs", "raw", "raw_list", "circuit", "inverse2"]
+LABEL_FORMS = ["list", "set", "enum", "str", "from_lists", "numpy", "items", "provider"]
+# qubit indices around the word-size boundaries (gate indices must fit the Rust usize)
+EDGE = [30, 31, 32, 33, 62, 63, 64, 65, 127, 128, 2**31 - 1, 2**31, 2**32 - 1, 2**32, 2**53 + 1, 2**63 - 1, 2**63, 2**64 - 1]
+EDGE_LABEL_ONLY = [2**64, 2**64 + 1, 2**70 + 3]
 
 
 def gen(ctx: Ctx):
@@ -46,6 +54,96 @@ def make_gate(kind, qs, rng):
     raise KeyError(kind)
 
 
+def build_gate(kind, cl, tl, form):
+    """a Clifford gate of the given kind/placement through one of the public construction routes; returns (gate, form used)"""
+    import numpy as np
+
+    from quri_parts.circuit import QuantumCircuit, QuantumGate, gates, inverse_gate
+
+    try:
+        if form == "kwargs":
+            if kind in ("CNOT", "CZ"):
+                return getattr(gates, kind)(control_index=cl[0], target_index=tl[0]), form
+            if kind == "SWAP":
+                return gates.SWAP(target_index1=tl[0], target_index2=tl[1]), form
+            return getattr(gates, kind)(target_index=tl[0]), form
+        if form == "raw":
+            return QuantumGate(name=kind, target_indices=tuple(tl), control_indices=tuple(cl)), form
+        if form == "raw_list":
+            conv = lambda xs: [np.uint64(x) if x < 2**64 else x for x in xs]
+            return QuantumGate(name=kind, target_indices=conv(tl), control_indices=conv(cl)), form
+        if form == "circuit" and max(cl + tl) < 200:
+            c = QuantumCircuit(max(cl + tl) + 1)
+            c.add_gate(make_gate(kind, cl + tl, None)[0])
+            return c.gates[-1], form
+        if form == "inverse2":
+            return inverse_gate(inverse_gate(make_gate(kind, cl + tl, None)[0])), form
+    except Exception:  # noqa: BLE001  (a construction route that is unavailable is not a conjugation output)
+        pass
+    return make_gate(kind, cl + tl, None)[0], "factory"
+
+
+def build_label(pairs, form):
+    """the same Pauli string through the documented construction routes of PauliLabel; returns (label, form used)"""
+    import numpy as np
+
+    from quri_parts.core.operator import PauliLabel, SinglePauli, pauli_label
+
+    try:
+        if form == "set":
+            return PauliLabel(set(pairs)), form
+        if form == "enum":
+            return pauli_label({(i, SinglePauli(p)) for i, p in pairs}), form
+        if form == "str" and pairs:
+            return pauli_label(" ".join("_XYZ"[p] + str(i) for i, p in pairs)), form
+        if form == "from_lists":
+            return PauliLabel.from_index_and_pauli_list([i for i, _ in pairs], [SinglePauli(p) for _, p in pairs]), form
+        if form == "numpy" and all(i < 2**63 for i, _ in pairs):
+            return PauliLabel([(np.int64(i), np.int64(p)) for i, p in pairs]), form
+        if form == "items":
+            return PauliLabel(dict(pairs).items()), form
+        if form == "provider":
+            class Prov:
+                def get_index_list(self):
+                    return [i for i, _ in pairs]
+
+                def get_pauli_id_list(self):
+                    return [p for _, p in pairs]
+
+            return pauli_label(Prov()), form
+    except Exception:  # noqa: BLE001
+        pass
+    return PauliLabel(list(pairs)), "list"
+
+
+def make_other(kind, qs):
+    """gates that must be rejected, beyond make_gate's list"""
+    from quri_parts.circuit import QuantumGate, gates
+
+    a, b = qs[0], qs[1]
+    if kind in ("RY", "RZ", "U1"):
+        return getattr(gates, kind)(a, 0.3)
+    if kind == "U2":
+        return gates.U2(a, 0.3, 0.2)
+    if kind == "UnitaryMatrix":
+        return gates.UnitaryMatrix([a], [[0, 1], [1, 0]])
+    if kind == "SingleQubitUnitaryMatrix":
+        return gates.SingleQubitUnitaryMatrix(a, [[1, 0], [0, 1j]])
+    if kind == "TwoQubitUnitaryMatrix":
+        return gates.TwoQubitUnitaryMatrix(a, b, [[1, 0, 0, 0], [0, 1, 0, 0], [0, 0, 0, 1], [0, 0, 1, 0]])
+    if kind == "Pauli1":
+        return gates.Pauli([a], [1])
+    if kind in ("ParametricRX", "ParametricRY", "ParametricRZ"):
+        return getattr(gates, kind)(a)
+    if kind == "ParametricPauliRotation":
+        return gates.ParametricPauliRotation([a, b], [1, 2])
+    if kind == "Measurement":
+        return gates.Measurement([a], [0])
+    if kind == "Bogus":
+        return QuantumGate(name="Bogus", target_indices=(a,))
+    raise KeyError(kind)
+
+
 def phase_exp(z):
     z = complex(z)
     for k, v in PH.items():
@@ -54,45 +152,188 @@ def phase_exp(z):
     return f"nonunit:{z}"
 
 
-def one_case(ctx, kind, qs, pairs, reqs, metas):
-    from quri_parts.core.operator import PauliLabel
+MODEL_NAME = {"Pauli1": "Pauli"}
+
+
+def call_real(gate, label):
+    """one call of the real function, canonicalised: label as a sorted list, coefficient as a power of i, result type"""
     from quri_parts.core.operator.conjugation import clifford_gate_conjugation
 
-    gate, cl, tl = make_gate(kind, qs, ctx.rng)
-    label = PauliLabel(pairs)
-    order = [(int(i), int(p)) for i, p in label]  # the real iteration order
     try:
         res, coef = clifford_gate_conjugation(gate, label)
-        real = ("ok", sorted((int(i), int(p)) for i, p in res), phase_exp(coef))
+        return ("ok", sorted((int(i), int(p)) for i, p in res), phase_exp(coef), type(res).__name__)
     except Exception as e:  # noqa: BLE001
-        real = ("err", type(e).__name__, None)
+        return ("err", type(e).__name__, None, None)
+
+
+def submit(ctx, kind, cl, tl, gate, label, reqs, metas, tag="random"):
+    order = [(int(i), int(p)) for i, p in label]  # the real iteration order
+    real = call_real(gate, label)
     f = lambda xs: ",".join(map(str, xs)) if xs else "-"
-    reqs.append(f"c06conj {kind} {f(cl)} {f(tl)} | " + ",".join(f"{i}:{p}" for i, p in order))
-    metas.append((kind, cl, tl, order, real, gate, label))
+    reqs.append(f"c06conj {MODEL_NAME.get(kind, kind)} {f(cl)} {f(tl)} | " + ",".join(f"{i}:{p}" for i, p in order))
+    metas.append((kind, cl, tl, order, real, tag))
+
+
+def one_case(ctx, kind, qs, pairs, reqs, metas, tag="random"):
+    from quri_parts.core.operator import PauliLabel
+
+    gate, cl, tl = make_gate(kind, qs, ctx.rng)
+    submit(ctx, kind, cl, tl, gate, PauliLabel(pairs), reqs, metas, tag)
 
 
 def compare(ctx, reqs, metas):
     resp = ctx.driver(reqs)
-    for (kind, cl, tl, order, real, gate, label), r in zip(metas, resp):
+    for (kind, cl, tl, order, real, tag), r in zip(metas, resp):
         key = (kind, tuple(cl), tuple(tl), tuple(sorted(order)))
         acted = sum(1 for i, _ in order if i in cl + tl)
+        inp = {"gate": kind, "controls": cl, "targets": tl, "label": order, "how": tag}
         ctx.case(key, nontrivial=bool(order), sample={"gate": kind, "controls": cl, "targets": tl, "label": order, "model": r})
         ctx.traces += 1
         ctx.count("kind", kind)
         ctx.count("acted_factors", str(acted))
+        ctx.count("generator", tag.split(":")[0])
         if real[0] == "err":
             ctx.count("outcome", real[1])
             if r != real[1]:
-                ctx.disagree("clifford_conj", {"gate": kind, "controls": cl, "targets": tl, "label": order}, real[1], r)
+                ctx.disagree("clifford_conj", inp, real[1], r)
             continue
         ctx.count("outcome", "ok")
         if not r.startswith("ok"):
-            ctx.disagree("clifford_conj", {"gate": kind, "controls": cl, "targets": tl, "label": order}, real, r)
+            ctx.disagree("clifford_conj", inp, real, r)
             continue
         lab_s, ph_s = [x.strip() for x in r[3:].split("|")]
         mlab = sorted(tuple(int(v) for v in t.split(":")) for t in lab_s.split(",")) if lab_s else []
         if mlab != [tuple(x) for x in real[1]] or str(real[2]) != ph_s:
-            ctx.disagree("clifford_conj", {"gate": kind, "controls": cl, "targets": tl, "label": order}, real, r)
+            ctx.disagree("clifford_conj", inp, real, r)
+        elif real[3] != "PauliLabel":
+            ctx.disagree("clifford_conj:result-type", inp, real[3], "PauliLabel")
+
+
+def pick_index(rng, label_only=False):
+    r = rng.random()
+    if r < 0.45:
+        return rng.choice(EDGE + (EDGE_LABEL_ONLY if label_only else []))
+    if r < 0.7:
+        return rng.randrange(0, 8)
+    return rng.randrange(0, 2**64 if not label_only else 2**66)
+
+
+def alias_of(rng, q):
+    """an index that coincides with q after truncation to 32 / 64 bits or modulo the word size (a spectator, not q)"""
+    return q + rng.choice([64, 2**32, 2**64, 2**31, 32]) if rng.random() < 0.7 or q < 64 else q % rng.choice([64, 2**32, 2**31])
+
+
+def forms_cases(ctx, reqs, metas, n):
+    """argument forms: every construction route of the gate and of the label, indices around 32/64-bit boundaries"""
+    rng = ctx.rng
+    for it in range(n):
+        kind = rng.choice(CLIFF1 + CLIFF2 * 5)
+        qs = []
+        while len(qs) < 2:
+            q = pick_index(rng)
+            if q not in qs:
+                qs.append(q)
+        if rng.random() < 0.3:  # adjacent, either order
+            qs[1] = qs[0] + rng.choice([1, -1]) if qs[0] > 0 else qs[0] + 1
+            if qs[1] >= 2**64:
+                qs[1] = qs[0] - 1
+        idx = []
+        for _ in range(rng.randint(0, 4)):
+            q = pick_index(rng, label_only=True)
+            if q not in idx:
+                idx.append(q)
+        for q in qs:
+            if rng.random() < 0.7 and q not in idx:
+                idx.append(q)
+            if rng.random() < 0.3:
+                al = alias_of(rng, q)
+                if al not in idx and al not in qs:
+                    idx.append(al)
+        pairs = [(i, rng.randint(1, 3)) for i in idx]
+        rng.shuffle(pairs)
+        _, cl, tl = make_gate(kind, qs + [0], rng)
+        gate, gform = build_gate(kind, cl, tl, GATE_FORMS[it % len(GATE_FORMS)] if it < 4 * len(GATE_FORMS) else rng.choice(GATE_FORMS))
+        label, lform = build_label(pairs, LABEL_FORMS[it % len(LABEL_FORMS)] if it < 4 * len(LABEL_FORMS) else rng.choice(LABEL_FORMS))
+        ctx.count("gate_form", gform)
+        ctx.count("label_form", lform)
+        submit(ctx, kind, cl, tl, gate, label, reqs, metas, f"forms:{gform}/{lform}")
+
+
+def sibling_gates(rng, a, b, c):
+    """gates that agree in all but one field: same targets / different control, swapped roles, same placement / other kind"""
+    sib = []
+    for k in ("CNOT", "CZ"):
+        sib += [(k, [a, b]), (k, [b, a]), (k, [c, b]), (k, [a, c]), (k, [c, a]), (k, [b, c])]
+    sib += [("SWAP", [a, b]), ("SWAP", [b, a]), ("SWAP", [a, c]), ("SWAP", [c, b])]
+    for k in CLIFF1:
+        sib += [(k, [a]), (k, [b])]
+    return sib
+
+
+def history_cases(ctx, reqs, metas, n_clusters, calls):
+    """call sequences on the same gate / label objects: repeats, gates differing only in the control, in the order of their
+    qubits or in the kind; every call is compared with the (stateless) model"""
+    rng = ctx.rng
+    for _ in range(n_clusters):
+        base = rng.choice([0, 0, 3, 61, 2**32 - 2])
+        a, b, c = [base + x for x in rng.sample(range(4), 3)]
+        sib = sibling_gates(rng, a, b, c)
+        pool = []
+        k2 = rng.choice(["CNOT", "CZ"])
+        # always present: same target / other control, swapped roles, same placement / other kind, SWAP both orders
+        core = [(k2, [a, b]), (k2, [c, b]), (k2, [b, a]), ("CZ" if k2 == "CNOT" else "CNOT", [a, b]), ("SWAP", [a, b]), ("SWAP", [b, a])]
+        for kind, qs in core + rng.sample(sib, 4):
+            g, cl, tl = make_gate(kind, qs + [0, 0], rng)
+            pool.append((kind, cl, tl, g))
+        labels = []
+        for _ in range(3):
+            idx = [q for q in (a, b, c, base + 7) if rng.random() < 0.75]
+            pairs = [(i, rng.randint(1, 3)) for i in idx]
+            rng.shuffle(pairs)
+            labels.append(build_label(pairs, "list")[0])
+        prev = None
+        for j in range(calls):
+            if prev is not None and rng.random() < 0.25:
+                kind, cl, tl, g = prev  # immediate repeat on the same objects
+            else:
+                kind, cl, tl, g = rng.choice(pool)
+            if rng.random() < 0.3:  # an equal but distinct gate object
+                g = build_gate(kind, cl, tl, "raw")[0]
+            prev = (kind, cl, tl, g)
+            submit(ctx, kind, cl, tl, g, rng.choice(labels) if j % 5 else labels[0], reqs, metas, "history")
+
+
+def rejected_cases(ctx, reqs, metas):
+    """every non-Clifford gate the library can build x labels that touch / miss the gate / are empty"""
+    from quri_parts.core.operator import PauliLabel
+
+    rng = ctx.rng
+    for kind in OTHER + OTHER2:
+        for pairs in ([], [(0, 3)], [(0, 1), (1, 2)], [(5, 2)], [(0, rng.randint(1, 3)), (2, rng.randint(1, 3)), (64, 1)]):
+            try:
+                gate = make_gate(kind, [0, 1, 2], rng)[0] if kind in OTHER else make_other(kind, [0, 1, 2])
+            except Exception:  # noqa: BLE001
+                ctx.count("gate_form", "unavailable:" + kind)
+                continue
+            submit(ctx, kind, [], [0], gate, PauliLabel(pairs), reqs, metas, "rejected")
+
+
+def shape_cases(ctx, reqs, metas):
+    """the fall-through of the function: a gate object carrying a Clifford name but neither one nor two qubits (only
+    constructible through the raw QuantumGate constructor). Outside the property's quantifier; compared with the model's
+    transcription of that branch only (no oracle judgement)."""
+    from quri_parts.circuit import QuantumGate
+    from quri_parts.core.operator import PauliLabel
+
+    rng = ctx.rng
+    for kind in CLIFF1 + CLIFF2:
+        for cl, tl in (([], []), ([], [0, 1, 2]), ([2], [0, 1]), ([0, 3], [1, 2])):
+            try:
+                gate = QuantumGate(name=kind, target_indices=tuple(tl), control_indices=tuple(cl))
+            except Exception:  # noqa: BLE001
+                continue
+            pairs = [(i, rng.randint(1, 3)) for i in rng.sample(range(5), rng.randint(0, 3))]
+            submit(ctx, kind, cl, tl, gate, PauliLabel(pairs), reqs, metas, "shape")
 
 
 def correspond(ctx: Ctx):
@@ -112,6 +353,10 @@ def correspond(ctx: Ctx):
         pairs = [(i, rng.randint(1, 3)) for i in idx]
         rng.shuffle(pairs)
         one_case(ctx, kind, qs, pairs, reqs, metas)
+    forms_cases(ctx, reqs, metas, ctx.n(300, 3000))
+    history_cases(ctx, reqs, metas, ctx.n(12, 120), ctx.n(40, 60))
+    rejected_cases(ctx, reqs, metas)
+    shape_cases(ctx, reqs, metas)
     if not ctx.quick():
         # exhaustive: all strings on ≤ 3 qubits × kinds × placements
         for n in (1, 2, 3):
@@ -119,13 +364,145 @@ def correspond(ctx: Ctx):
                 pairs = [(i, p) for i, p in enumerate(ids) if p]
                 for kind in CLIFF1:
                     for q in range(n):
-                        one_case(ctx, kind, [q, (q + 1) % 3, (q + 2) % 3], pairs, reqs, metas)
+                        one_case(ctx, kind, [q, (q + 1) % 3, (q + 2) % 3], pairs, reqs, metas, "exhaustive")
                 if n >= 2:
                     for kind in CLIFF2:
                         for a, b in itertools.permutations(range(n), 2):
-                            one_case(ctx, kind, [a, b, 3], pairs, reqs, metas)
+                            one_case(ctx, kind, [a, b, 3], pairs, reqs, metas, "exhaustive")
         ctx.extra["exhaustive"] = "all Pauli strings on ≤3 qubits × all gate kinds × all placements"
     compare(ctx, reqs, metas)
+
+
+def judge(ctx, kind, cl, tl, pairs, gate, label, how, prev=None):
+    """Independent judgement of ONE call on the real code, for indices of any size: the qubits that occur (gate, label,
+    result) are relabelled monotonically to 0..m-1 and U P U† = c P' is checked with dense matrices, U built from
+    (kind, placement) by the oracle, not from the gate object handed to the code."""
+    import numpy as np
+
+    from oracle import dense
+    from quri_parts.core.operator.conjugation import clifford_gate_conjugation
+
+    inp = {"gate": kind, "controls": cl, "targets": tl, "label": pairs, "how": how}
+    if prev is not None:
+        inp["previous_call_same_label"] = prev
+    try:
+        res, coef = clifford_gate_conjugation(gate, label)
+    except Exception as e:  # noqa: BLE001
+        ctx.witness("conj-raises:" + kind, f"Clifford gate {kind} rejected: {type(e).__name__}", inp)
+        return
+    try:
+        out = sorted((int(i), int(p)) for i, p in res)
+        c = complex(coef)
+    except Exception as e:  # noqa: BLE001
+        ctx.witness("conj:" + kind, f"result is not a (Pauli label, number) pair: {type(e).__name__}", inp, repr((res, coef))[:200])
+        return
+    inp = dict(inp, returned=[out, str(coef)])
+    acted = set(cl + tl)
+    support = {i for i, _ in pairs}
+    if len({i for i, _ in out}) != len(out) or any(p not in (1, 2, 3) for _, p in out):
+        ctx.witness("conj:" + kind, "returned label is not a Pauli string (repeated index or id outside 1..3)", inp)
+        return
+    if any(i not in acted | support for i, _ in out):
+        ctx.witness("conj:" + kind, "returned label acts on a qubit that neither the gate nor P touches", inp)
+        return
+    if c not in (1, -1):
+        ctx.witness("conj:" + kind, f"coefficient {coef!r} is not +1 or -1", inp)
+        return
+    if kind == "Identity":
+        acted = set()
+    qubits = sorted(acted | support)
+    pos = {q: j for j, q in enumerate(qubits)}
+    n = max(1, len(qubits))
+    if n > 7:
+        return
+
+    def pmat(ps):
+        m = np.eye(1 << n, dtype=complex)
+        for i, p in ps:
+            m = dense.embed(n, [pos[i]], dense.PAULI[p]) @ m
+        return m
+
+    if kind == "Identity":
+        u = np.eye(1 << n, dtype=complex)
+    else:
+        local = dense.local_matrix(kind, (), (), None)
+        u = dense.embed(n, [pos[q] for q in cl + tl], local)
+    d = float(np.max(np.abs(u @ pmat(pairs) @ u.conj().T - c * pmat(out))))
+    if d > 1e-9:
+        ctx.witness("conj:" + kind, f"U P U† differs from c·P' by {d:.3g} (c={coef})", inp)
+
+
+def validate_forms(ctx: Ctx, budget_s: float) -> int:
+    """oracle judgement over the argument forms / index ranges / call histories the dense n ≤ 5 search cannot reach"""
+    import time
+
+    from quri_parts.core.operator.conjugation import clifford_gate_conjugation
+
+    rng = ctx.rng
+    t0 = time.time()
+    n_eval = 0
+    it = 0
+    while time.time() - t0 < budget_s:
+        it += 1
+        # a cluster: one label object (any construction route, any index range) against sibling gates, with repeats
+        if rng.random() < 0.5:
+            base = rng.choice([0, 0, 1, 29, 30, 61, 62, 2**31 - 2, 2**32 - 2, 2**63 - 2, 2**64 - 4])
+            a, b, c = [base + x for x in rng.sample(range(4), 3)]
+        else:
+            qs = []
+            while len(qs) < 3:
+                q = pick_index(rng)
+                if q not in qs:
+                    qs.append(q)
+            a, b, c = qs
+        idx = [q for q in (a, b, c) if rng.random() < 0.7]
+        for _ in range(rng.randint(0, 2)):
+            q = pick_index(rng, label_only=True) if rng.random() < 0.5 else alias_of(rng, rng.choice((a, b, c)))
+            if q not in idx and q not in (a, b, c):
+                idx.append(q)
+        pairs = [(i, rng.randint(1, 3)) for i in idx]
+        rng.shuffle(pairs)
+        label, lform = build_label(pairs, LABEL_FORMS[it % len(LABEL_FORMS)])
+        seq = rng.sample(sibling_gates(rng, a, b, c), 5)
+        seq = seq + [seq[0], rng.choice(seq)]  # a repeat after other calls
+        prev = None
+        for j, (kind, qs) in enumerate(seq):
+            _, cl, tl = make_gate(kind, qs + [0, 0], rng)
+            gate, gform = build_gate(kind, cl, tl, GATE_FORMS[(it + j) % len(GATE_FORMS)])
+            n_eval += 1
+            judge(ctx, kind, cl, tl, pairs, gate, label, f"{gform}/{lform}/call{j}", prev)
+            prev = {"gate": kind, "controls": cl, "targets": tl}
+    # rejection, every non-Clifford gate the library can build, whatever the label
+    from quri_parts.core.operator import PauliLabel
+
+    for kind in OTHER2:
+        if kind == "Pauli1":
+            continue  # a Clifford gate; its rejection (NotImplementedError) is documented, not required by the property
+        for pairs in ([], [(0, 1)], [(0, 3)], [(7, 2)], [(0, 2), (1, 3), (64, 1)]):
+            try:
+                gate = make_other(kind, [0, 1, 2])
+            except Exception:  # noqa: BLE001
+                continue
+            n_eval += 1
+            try:
+                clifford_gate_conjugation(gate, PauliLabel(pairs))
+                ctx.witness("non-clifford-accepted:" + kind, f"{kind} was not rejected", {"gate": kind, "label": pairs})
+            except (ValueError, NotImplementedError):
+                pass
+            except Exception as e:  # noqa: BLE001
+                ctx.witness("non-clifford-accepted:" + kind, f"{kind}: unexpected {type(e).__name__}", {"gate": kind, "label": pairs})
+    for kind in OTHER:
+        for pairs in ([], [(0, 3)], [(7, 2)]):
+            gate = make_gate(kind, [0, 1, 2], rng)[0]
+            n_eval += 1
+            try:
+                clifford_gate_conjugation(gate, PauliLabel(pairs))
+                ctx.witness("non-clifford-accepted:" + kind, f"{kind} was not rejected", {"gate": kind, "label": pairs})
+            except (ValueError, NotImplementedError):
+                pass
+            except Exception as e:  # noqa: BLE001
+                ctx.witness("non-clifford-accepted:" + kind, f"{kind}: unexpected {type(e).__name__}", {"gate": kind, "label": pairs})
+    return n_eval
 
 
 def validate(ctx: Ctx, budget_s: float):
@@ -148,7 +525,7 @@ def validate(ctx: Ctx, budget_s: float):
             m = dense.embed(n, [i], dense.PAULI[p]) @ m
         return m
 
-    while time.time() - t0 < budget_s:
+    while time.time() - t0 < budget_s * 0.5:
         n = rng.randint(2, 5)
         kind = rng.choice(CLIFF1 + CLIFF2 * 3)
         qs = rng.sample(range(n), 2) + [0]
@@ -178,8 +555,10 @@ def validate(ctx: Ctx, budget_s: float):
             pass
         except Exception as e:  # noqa: BLE001
             ctx.witness("non-clifford-accepted:" + kind, f"{kind}: unexpected {type(e).__name__}", {"gate": kind})
+    n_forms = validate_forms(ctx, budget_s * 0.5)
+    n_eval += n_forms
     ctx.evaluations += n_eval
-    ctx.extra["oracle_validation"] = {"evaluations": n_eval}
+    ctx.extra["oracle_validation"] = {"evaluations": n_eval, "forms_histories_wide_indices": n_forms}
     ctx.search_budget_s = budget_s
 
 
